@@ -253,6 +253,13 @@ HasMut(n) == CASE n.t = "call" -> Canon(n.fn) \in Mutators \/ n.fn = "each" \/ \
                [] n.t = "pair" -> HasMut(n.c) \/ HasMut(n.v)
                [] OTHER -> FALSE
 
+\* all call nodes of a plan / those of documented mutators
+RECURSIVE Calls(_)
+Calls(n) == CASE n.t = "call" -> <<n>> \o (LET RECURSIVE Cs(_)
+                                               Cs(j) == IF j > Len(n.a) THEN <<>> ELSE Calls(n.a[j]) \o Cs(j + 1) IN Cs(1))
+              [] n.t = "pair" -> Calls(n.c) \o Calls(n.v)
+              [] OTHER -> <<>>
+MutCalls(plan) == SelectSeq(Calls(plan), LAMBDA c : Canon(c.fn) \in Mutators)
 RECURSIVE Eval(_, _, _), EvalList(_, _, _, _), Chain(_, _, _, _), Cond(_, _, _), PathArg(_, _, _)
 \* byte spelling of the plain member names the specification knows (string values are byte sequences, member names atoms)
 Names == [src |-> <<115, 114, 99>>, asm |-> <<97, 115, 109>>, a |-> <<97>>, b |-> <<98>>, c |-> <<99>>, d |-> <<100>>, e |-> <<101>>,
@@ -426,12 +433,6 @@ Exec(plan, root) == Eval(plan, root, AtRoot)
 \* $.src, $ itself, a path that does not start with a plain member name, any @ path (the local value may be, or share
 \* structure with, data under $.src), a computed path; or unless a container may have been shared between $.src and
 \* another place by an earlier set (aliasing is not excluded by the descriptions) and is then mutated there.
-RECURSIVE Calls(_)
-Calls(n) == CASE n.t = "call" -> <<n>> \o (LET RECURSIVE Cs(_)
-                                               Cs(j) == IF j > Len(n.a) THEN <<>> ELSE Calls(n.a[j]) \o Cs(j + 1) IN Cs(1))
-              [] n.t = "pair" -> Calls(n.c) \o Calls(n.v)
-              [] OTHER -> <<>>
-MutCalls(plan) == SelectSeq(Calls(plan), LAMBDA c : Canon(c.fn) \in Mutators)
 TargetsSrc(c) == c.a = <<>> \/ c.a[1].t # "path" \/ c.a[1].at \/ c.a[1].fr = <<>> \/ c.a[1].fr[1].k # "c" \/ c.a[1].fr[1].s = "src"
 StoresContainer(c) == Canon(c.fn) \in {"set", "setall"} /\ Len(c.a) >= 2 /\ c.a[2].t \notin ScalarTags
 HasEach(plan) == \E j \in 1..Len(Calls(plan)) : Calls(plan)[j].fn = "each"
